@@ -235,6 +235,7 @@ func cmdWorker(args []string) int {
 			SitesSeen: bits(h.Sim.SiteSeen[:]), SitesNonCan: bits(h.Sim.SiteNonCanon[:]), PolicyUse: h.Sim.PolicyUse[:],
 			Policies: []string{"asc", "desc", "rotate", "shuffle", "pinfirst", "pinlast"}}
 		w.WallS = time.Since(start).Seconds()
+		w.PkgVars = w.PkgVars[:0] // flush runs many times
 		for _, v := range simrt.PkgVars() {
 			w.PkgVars = append(w.PkgVars, v.Name)
 		}
